@@ -31,7 +31,7 @@ F = dict(zero=0, nzero=-2147483648, one=1065353216, mone=-1082130432, nan=214328
          big=1166016512, max=2139095039, tenth=1036831949, two=1073741824)
 
 
-def run_events(ctx, stage, cases, profile="dev", spec="Trace", extra_env=None):
+def run_events(ctx, stage, cases, profile="dev", spec="Trace", extra_env=None, **exec_kw):
     """cases -> real code -> TLC. Appends the verdicts to ctx."""
     cp = os.path.join(ctx.work, stage + ".cases.ndjson")
     with open(cp, "w") as f:
@@ -39,7 +39,7 @@ def run_events(ctx, stage, cases, profile="dev", spec="Trace", extra_env=None):
             f.write(json.dumps(c) + "\n")
     ep = os.path.join(ctx.work, stage + ".events.ndjson")
     t0 = time.time()
-    aborted = pv.exec_cases(cp, ep, profile)
+    aborted = pv.exec_cases(cp, ep, profile, **exec_kw)
     t1 = time.time()
     vs, n, paths = pv.validate_events(ep, os.path.join(ctx.work, "val_" + stage), spec=spec, extra_env=extra_env)
     ctx.paths[stage] = paths
